@@ -805,4 +805,274 @@ theorem osu_to_sm_objects_partial (s : Osu.Skeleton) (hwf : s.WF) (lines : List 
   exact ⟨paired_of_perm_exact _ (fun a => closeHit_exact_refl _ _ a _ _ rfl) _ _ hh,
          paired_of_perm_exact _ (fun a => closeHold_exact_refl _ a _ _) _ _ hl'⟩
 
+/-! ## … → StepMania, file to file with the tempo timeline and `#OFFSET` (exact regime) -/
+
+theorem zip_map_fst_snd {α β} (l : List (α × β)) : (l.map (·.1)).zip (l.map (·.2)) = l := by
+  induction l with
+  | nil => rfl
+  | cons a t ih => simp [ih]
+
+theorem tmTail_bpms' (T : Rat) (cur : BcSnap) (rest : List BcSnap) : (tmTail T cur rest).map (·.bpm) = rest.map (·.bpm) := by
+  induction rest generalizing T cur with
+  | nil => rfl
+  | cons n r ih => simp [tmTail, ih]
+
+theorem tmOf_bpms' (t0 : Rat) (cs : List BcSnap) : (tmOf t0 cs).map (·.bpm) = cs.map (·.bpm) := by
+  cases cs with
+  | nil => rfl
+  | cons c rest => simp [tmOf, tmTail_bpms']
+
+/-- **the written `#OFFSET` / `#BPMS` denote the chart's own tempo rows**: when the chart's tempo list `cb` is the
+stored form of the tempo-change list `cs` from `t0` (`C03.ChartWritten`'s `toTimingMap c.bpms = tmOf t0 cs`) and the
+written header denotes `t0` and `cs` (`−1000·#OFFSET = t0`, `changesOf #BPMS = cs`, pairs in beat order), then the tempo
+points of the file's denotation — every `#BPMS` beat integrated over the `#BPMS` segments from `−1000·#OFFSET` — are
+exactly the rows `(time, bpm)` of `cb`, in order. -/
+theorem written_tempo_rows (t0 : Rat) (cs : List BcSnap) (hwf : wfChanges cs = true) (hs : sortedSnaps cs = true)
+    (cb : List (Rat × Rat)) (hb : SM.toTimingMap cb = tmOf t0 cs)
+    (offsetSec : Rat) (wb : List (Rat × Rat)) (ho : -(1000 * offsetSec) = t0) (hbp : SM.changesOf wb = cs)
+    (hsorted : wb.Pairwise (fun x y => decide (x.1 ≤ y.1) = true)) (dc : SM.DChart) :
+    (ofSMChart offsetSec wb dc).bpms = cb := by
+  have hcs : cs = wb.map (fun p => (⟨p.2, 4, SM.snapOfBeat p.1⟩ : BcSnap)) := by
+    rw [← hbp]; unfold SM.changesOf; rw [isort_eq_self _ hsorted]
+  have h1 : cb.map (·.1) = changeTimes t0 cs := by
+    rw [← stored_times_eq_changeTimes t0 cs hwf hs, ← hb]; simp [SM.toTimingMap]
+  have h2 : cb.map (·.2) = cs.map (·.bpm) := by
+    rw [← tmOf_bpms' t0 cs, ← hb]; simp [SM.toTimingMap]
+  have key : ∀ L : List BcSnap, L = wb.map (fun p => (⟨p.2, 4, SM.snapOfBeat p.1⟩ : BcSnap)) →
+      L.map (fun c => timeAt t0 cs c.snap) = wb.map (fun p => timeAt t0 cs (SM.snapOfBeat p.1)) ∧
+      L.map (·.bpm) = wb.map (·.2) := by
+    intro L hL
+    subst hL
+    simp [List.map_map, Function.comp]
+  obtain ⟨k1, k2⟩ := key cs hcs
+  rw [← zip_map_fst_snd cb, h1, h2]
+  show (SM.tempoTimes offsetSec wb).zip (wb.map (·.2)) = _
+  unfold SM.tempoTimes SM.timeOfBeat changeTimes
+  rw [ho, hbp, k1, k2]
+
+/-- non-vacuity: two tempo points on measure lines, `#OFFSET:-0.5` -/
+example :
+    let cs : List BcSnap := [⟨120, 4, ⟨0, 0, some 4⟩⟩, ⟨60, 4, ⟨2, 0, some 4⟩⟩]
+    let wb : List (Rat × Rat) := [(0, 120), (8, 60)]
+    wfChanges cs = true ∧ sortedSnaps cs = true ∧ SM.toTimingMap [(500, 120), (4500, 60)] = tmOf 500 cs ∧
+    -(1000 * (-1/2 : Rat)) = 500 ∧ SM.changesOf wb = cs ∧ wb.Pairwise (fun x y => decide (x.1 ≤ y.1) = true) := by
+  decide +kernel
+
+theorem closeBpm_exact_refl (src : AChart) (a : ABpm) (f g : Rat) :
+    closeBpm 0 (.beat f g) true src a a = true := by
+  have hz : ∀ x : Rat, slack 0 x x = 0 := by intro x; unfold slack; rw [Rat.zero_mul, Rat.add_zero]
+  have h0 : ∀ x : Rat, rabs (x - x) = 0 := by intro x; unfold rabs; rw [Rat.sub_self]; simp
+  have r0 : rabs (0 : Rat) ≤ 0 := by decide +kernel
+  simp [closeBpm, closeTime, eqUpTo, hz, r0]
+
+/-- everything C03 `write_read_exact_show` asks of the one-chart set `[c]` written under the header `h`, plus what ties
+the written header to the chart's tempo list: the header's offset is the time `t0` of the chart's first tempo point
+(`C03.ChartWritten`'s `toTimingMap c.bpms = tmOf t0 cs` puts the first stored point at `t0`; that a converter assigns
+exactly this is `sm_offset_rules` + `offset_established_*`, D14 / D42), the written `#BPMS` pairs denote `cs` and are in
+beat order.  `sh` is Python's number rendering (parameter). -/
+structure SMWritable (sh : SM.Shows) (t0 : Rat) (cs : List BcSnap) (h : SM.WHeader) (c : SM.WChart) (w : SM.Written) :
+    Prop where
+  hsh : SM.ShowsOK sh
+  hsp : SM.ShowsParse sh
+  hwf : wfChanges cs = true
+  hs : sortedSnaps cs = true
+  h0 : firstAtZero cs = true
+  hgc : gridCompatible (grid defaultMaxDiv) cs = true
+  hm : metronomeOk cs = true
+  hM : ∀ c ∈ cs, c.met = 4
+  hw : SM.write h [c] = .ok w
+  hL : ∃ out, C03.ChartWritten t0 cs c out
+  hstr : ∀ ta ∈ SM.stringTags, SM.CleanParam ((h.strs.lookup ta.2).getD [])
+  hch : SM.CleanParam c.chartType ∧ SM.CleanParam c.description ∧ SM.CleanParam c.difficulty ∧
+    '\n' ∉ c.chartType ∧ '\n' ∉ c.difficulty
+  ho : h.offset = t0
+  hbp : SM.changesOf w.bpms = cs
+  hsorted : w.bpms.Pairwise (fun x y => decide (x.1 ≤ y.1) = true)
+
+theorem write_offsetSec (h : SM.WHeader) (charts : List SM.WChart) (w : SM.Written) (hw : SM.write h charts = .ok w) :
+    -(1000 * w.offsetSec) = h.offset := by
+  unfold SM.write at hw
+  cases charts with
+  | nil => cases hw
+  | cons c0 rest =>
+    simp only [bind, Except.bind] at hw
+    split at hw
+    · cases hw
+    · split at hw
+      · cases hw
+      · cases hw
+        simp only [SM.secToMsec]
+        ring
+
+/-- **writer link into StepMania over `AChart`, exact regime** (C03 `write_read_exact_show` + `written_tempo_rows`):
+the text `SMMapSet.write` returns for the chart held by the converted frames `t` has a by-the-book denotation with the
+written `#OFFSET` (= −header offset / 1000) and `#BPMS`, exactly one chart, and that chart's hits, holds AND tempo points
+are exactly those of `t`'s abstract chart. -/
+theorem write_sm_close (sh : SM.Shows) (t0 : Rat) (cs : List BcSnap) (t : Convert.TChart) (a : AChart)
+    (ha : ofTChart t = a) (hcols : ColsNonneg a) (h : SM.WHeader) (ty desc diff : SM.Str) (dv : Int)
+    (groove : List Rat) (w : SM.Written) (H : SMWritable sh t0 cs h (smOfT t ty desc diff dv groove) w) :
+    ∃ d, SM.denote (SM.renderWritten sh w) = some d ∧ d.offsetSec = some w.offsetSec ∧ d.bpms = some w.bpms ∧
+      -(1000 * w.offsetSec) = h.offset ∧ d.chartsWellFormed = true ∧ d.charts.length = 1 ∧
+      ∀ (hd : 0 < d.charts.length),
+        CloseTo 0 (.beat (1 / 96) (1 / 192)) true 0 a (ofSMChart w.offsetSec w.bpms d.charts[0]) := by
+  have hoff := write_offsetSec h _ w H.hw
+  obtain ⟨d, hd, hdo, hdb, hdwf, hlen, hall⟩ := C03.write_read_exact_show sh H.hsh H.hsp t0 cs H.hwf H.hs H.h0 H.hgc
+    H.hm H.hM h [smOfT t ty desc diff dv groove] w H.hw
+    (by intro c hc; simp only [List.mem_singleton] at hc; subst hc; exact H.hL) H.hstr
+    (by intro c hc; simp only [List.mem_singleton] at hc; subst hc; exact H.hch)
+    (by rw [hoff]; exact H.ho) H.hbp
+  refine ⟨d, hd, hdo, hdb, hoff, hdwf, by simpa using hlen, ?_⟩
+  intro hd0
+  obtain ⟨_, hperm⟩ := hall 0 (by simp) hd0
+  obtain ⟨hh, hl'⟩ := ofSMChart_objects t ty desc diff dv groove w.offsetSec w.bpms d.charts[0]
+    (ha ▸ hcols) (by simpa using hperm)
+  obtain ⟨out, keys, _, _, _, hb, _⟩ := H.hL
+  have hbp' : (ofSMChart w.offsetSec w.bpms d.charts[0]).bpms = a.bpms := by
+    rw [written_tempo_rows t0 cs H.hwf H.hs _ hb w.offsetSec w.bpms (by rw [hoff]; exact H.ho) H.hbp H.hsorted]
+    rw [← ha]; rfl
+  rw [ha] at hh hl'
+  refine ⟨paired_of_perm_exact _ (fun x => closeHit_exact_refl _ _ x _ _ rfl) _ _ hh,
+          paired_of_perm_exact _ (fun x => closeHold_exact_refl _ x _ _) _ _ hl', ?_⟩
+  rw [hbp']
+  exact ⟨_, _, List.Perm.refl _, List.Perm.refl _, zipped_refl _ (fun x => closeBpm_exact_refl a x _ _) _⟩
+
+/-- non-vacuity of the hypotheses on the chart side: the chart held by converted frames (two hits, a hold, two tempo points
+on measure lines from 500 ms) has the stored tempo list of `cs` from `t0 = 500` = its first tempo point, a 4-key type,
+nothing before `t0`, and the `#BPMS` pairs the writer emits for it (C15 `write_sm_perm`'s formula) are `0=120, 8=60` —
+the pairs of the example above -/
+example :
+    let th : Convert.Frame := ⟨[0, 1], [("offset", [.num 500, .num 1000]), ("column", [.num 0, .num 3])]⟩
+    let tl : Convert.Frame := ⟨[0], [("offset", [.num 1500]), ("column", [.num 1]), ("length", [.num 500])]⟩
+    let fb : Convert.Frame := ⟨[0, 1], [("offset", [.num 500, .num 4500]), ("bpm", [.num 120, .num 60])]⟩
+    let t : Convert.TChart := ⟨th, tl, fb, none, []⟩
+    let c := smOfT t ['d','a','n','c','e','-','s','i','n','g','l','e'] [] [] 1 []
+    let cs : List BcSnap := [⟨120, 4, ⟨0, 0, some 4⟩⟩, ⟨60, 4, ⟨2, 0, some 4⟩⟩]
+    SM.toTimingMap c.bpms = tmOf 500 cs ∧ firstTempo (ofTChart t) = some 500 ∧
+    c.notes = [⟨.hit, 0, 500, 0⟩, ⟨.hit, 3, 1000, 0⟩, ⟨.hold, 1, 1500, 500⟩] ∧
+    SM.getKeys c.chartType = some 4 ∧
+    (c.notes.all fun n => decide (500 ≤ n.time) && decide (0 ≤ n.length)) = true ∧
+    (c.bpms.map (fun p => (SM.round6 (beatAt 500 cs p.1), p.2)) = [(0, 120), (8, 60)]) := by
+  decide +kernel
+
+/-- **convert, then write as StepMania — every converter entry without a shift parameter** (`_partial`: exact regime):
+for every well-formed source and every (source map, converted chart) pair whose columns are not negative, the text
+`SMMapSet.write` returns for the one-chart set held by the converted frames (`SMWritable`: C03's hypotheses — objects on
+the snap grid — and the header tie) denotes EXACTLY the source map's abstract chart: hits, holds and tempo points. -/
+theorem convert_write_sm_partial : ∀ c ∈ Generated.converters, c.shiftParam = none →
+    ∀ (src : Convert.Src) (k : Int) (out : Convert.Out), (∀ m ∈ src.maps, Convert.srcMapOk m = true) →
+    Convert.convert Convert.tables c src k = .ok out →
+    ∀ p ∈ src.maps.zip out.pairs, ColsNonneg (ofSrcMap p.1) →
+    ∀ (sh : SM.Shows) (t0 : Rat) (cs : List BcSnap) (h : SM.WHeader) (ty desc diff : SM.Str) (dv : Int)
+      (groove : List Rat) (w : SM.Written), SMWritable sh t0 cs h (smOfT p.2.2 ty desc diff dv groove) w →
+      ∃ d, SM.denote (SM.renderWritten sh w) = some d ∧ d.offsetSec = some w.offsetSec ∧ d.bpms = some w.bpms ∧
+        -(1000 * w.offsetSec) = h.offset ∧ d.chartsWellFormed = true ∧ d.charts.length = 1 ∧
+        ∀ (hd : 0 < d.charts.length),
+          CloseTo 0 (.beat (1 / 96) (1 / 192)) true 0 (ofSrcMap p.1) (ofSMChart w.offsetSec w.bpms d.charts[0]) := by
+  intro c hc hns src k out hsrc hconv p hp hcols sh t0 cs h ty desc diff dv groove w H
+  exact write_sm_close sh t0 cs _ _
+    (convert_abstract_eq _ c src k out (Convert.table_static_ok c hc) hns hsrc hconv p hp) hcols h ty desc diff dv groove w H
+
+def quaToSM : Convert.Conv := Convert.conv! "QuaToSM.convert"
+
+theorem quaToSM_entry : quaToSM ∈ Generated.converters ∧ quaToSM.name = "QuaToSM.convert" ∧ quaToSM.shiftParam = none := by
+  decide +kernel
+
+/-- **osu → StepMania, end to end, exact regime** (`_partial`; osu text to the text `SMMapSet.write` returns; reader C01,
+converter C08, writer C03 `write_read_exact_show`): let an osu text of the dialect denote `c0` (key count ≥ 1, columns
+not negative).  Then the reader returns `c0`; whenever the converter model's `OsuToSM.convert` succeeds on the frames of
+`c0`, for every converted chart `t` and every header `h`, chart header, renderer `sh` and written structure `w` with
+`SMWritable` (C03's hypotheses on the chart held by `t`'s frames — C10's domain for the tempo list `cs` from `t0`, every
+object on the snap grid, `EventsOK`, non-overlapping holds, clean header strings, the per-number renderer assumption —
+plus: `h.offset = t0`, i.e. the set's offset is the chart's first tempo point, which is what `sm_offset_rules` +
+`offset_established_first` establish for this converter since D14; the written `#BPMS` denote `cs`, in beat order):
+the text `renderWritten sh w` has a StepMania denotation `d` with `#OFFSET` = −`h.offset`/1000, the written `#BPMS`, one
+well-formed chart, and `CloseTo 0 (beat 1/96 1/192) exact 0 (ofOsu c0) (ofSMChart #OFFSET #BPMS d.charts[0])`: the hits,
+the holds AND the normalised tempo timeline (times included) of the SOURCE FILE are exactly those of the WRITTEN FILE.
+`_partial` because the off-grid regime (`exact = false`, 1/96 beat + 1/192 beat per tempo change) has no writer theorem
+in C03; the full statement is the one in the file header with `exact = gridExact a`. -/
+theorem osu_to_sm_end_to_end_partial (s : Osu.Skeleton) (hwf : s.WF) (lines : List Osu.Str)
+    (hl : lines.map Osu.strip = s.lines) (c0 : Osu.Chart) (hden : Osu.denote lines = .ok c0)
+    (hk : 1 ≤ Osu.pyTrunc c0.md.circleSize) (hcols : ColsNonneg (ofOsu c0))
+    (k : Int) (out : Convert.Out)
+    (hconv : Convert.convert Convert.tables osuToSM ⟨[], [embOsu c0]⟩ k = .ok out) :
+    Osu.read lines = .ok c0 ∧
+    ∀ p ∈ [embOsu c0].zip out.pairs,
+      ∀ (sh : SM.Shows) (t0 : Rat) (cs : List BcSnap) (h : SM.WHeader) (ty desc diff : SM.Str) (dv : Int)
+        (groove : List Rat) (w : SM.Written), SMWritable sh t0 cs h (smOfT p.2.2 ty desc diff dv groove) w →
+        ∃ d, SM.denote (SM.renderWritten sh w) = some d ∧ d.offsetSec = some w.offsetSec ∧ d.bpms = some w.bpms ∧
+          -(1000 * w.offsetSec) = h.offset ∧ d.chartsWellFormed = true ∧ d.charts.length = 1 ∧
+          ∀ (hd : 0 < d.charts.length),
+            CloseTo 0 (.beat (1 / 96) (1 / 192)) true 0 (ofOsu c0) (ofSMChart w.offsetSec w.bpms d.charts[0]) := by
+  obtain ⟨hc, _, hns⟩ := osuToSM_entry
+  refine ⟨Osu.read_eq_denote s hwf lines hl c0 hden hk, ?_⟩
+  intro p hp sh t0 cs h ty desc diff dv groove w H
+  have hsrc : ∀ m ∈ (⟨[], [embOsu c0]⟩ : Convert.Src).maps, Convert.srcMapOk m = true := by
+    intro m hm
+    simp only [List.mem_singleton] at hm
+    subst hm
+    exact srcMapOk_embOsu c0
+  have hp1 : p.1 = embOsu c0 := by
+    have := (List.of_mem_zip hp).1
+    simpa using this
+  have := convert_write_sm_partial _ hc hns _ k out hsrc hconv p hp (by rw [hp1, ofSrcMap_embOsu]; exact hcols)
+    sh t0 cs h ty desc diff dv groove w H
+  rw [hp1, ofSrcMap_embOsu] at this
+  exact this
+
+/-- **Quaver → StepMania, end to end, exact regime** (`_partial` as `osu_to_sm_end_to_end_partial`; reader C06
+`qua_read_defaults`; the offset rule of `QuaToSM` is the first tempo point since D42). -/
+theorem qua_to_sm_end_to_end_partial (d0 : Qua.Doc) (hdecl : Qua.Spec.objsDeclared d0 = true) (c0 : Qua.Chart)
+    (hden : Qua.Spec.denote d0 = .ok c0) (hcols : ColsNonneg (ofQua c0)) (k : Int) (out : Convert.Out)
+    (hconv : Convert.convert Convert.tables quaToSM ⟨[], [embQua c0]⟩ k = .ok out) :
+    Qua.read d0 = .ok c0 ∧
+    ∀ p ∈ [embQua c0].zip out.pairs,
+      ∀ (sh : SM.Shows) (t0 : Rat) (cs : List BcSnap) (h : SM.WHeader) (ty desc diff : SM.Str) (dv : Int)
+        (groove : List Rat) (w : SM.Written), SMWritable sh t0 cs h (smOfT p.2.2 ty desc diff dv groove) w →
+        ∃ d, SM.denote (SM.renderWritten sh w) = some d ∧ d.offsetSec = some w.offsetSec ∧ d.bpms = some w.bpms ∧
+          -(1000 * w.offsetSec) = h.offset ∧ d.chartsWellFormed = true ∧ d.charts.length = 1 ∧
+          ∀ (hd : 0 < d.charts.length),
+            CloseTo 0 (.beat (1 / 96) (1 / 192)) true 0 (ofQua c0) (ofSMChart w.offsetSec w.bpms d.charts[0]) := by
+  obtain ⟨hc, _, hns⟩ := quaToSM_entry
+  refine ⟨by rw [Qua.qua_read_defaults d0 hdecl]; exact hden, ?_⟩
+  intro p hp sh t0 cs h ty desc diff dv groove w H
+  have hsrc : ∀ m ∈ (⟨[], [embQua c0]⟩ : Convert.Src).maps, Convert.srcMapOk m = true := by
+    intro m hm
+    simp only [List.mem_singleton] at hm
+    subst hm
+    exact srcMapOk_embQua c0
+  have hp1 : p.1 = embQua c0 := by
+    have := (List.of_mem_zip hp).1
+    simpa using this
+  have := convert_write_sm_partial _ hc hns _ k out hsrc hconv p hp (by rw [hp1, ofSrcMap_embQua]; exact hcols)
+    sh t0 cs h ty desc diff dv groove w H
+  rw [hp1, ofSrcMap_embQua] at this
+  exact this
+
+/-- **any source → StepMania** (`_partial`: exact regime, and the reader link "the in-memory set is the frames of the
+abstract charts `as`" is the hypothesis carried by `srcOfAbstract`; covers BMS → StepMania, and O2Jam → StepMania
+together with `o2j_first_tempo_at_zero` for the rule `0.0`) -/
+theorem from_abstract_to_sm_partial : ∀ c ∈ Generated.converters, c.shiftParam = none →
+    ∀ (as : List AChart) (svs : Option (List (Rat × Rat))) (setAttrs mapAttrs : List (String × String)) (lv : String)
+      (k : Int) (out : Convert.Out),
+    Convert.convert Convert.tables c (srcOfAbstract as svs setAttrs mapAttrs lv) k = .ok out →
+    ∀ p ∈ as.zip out.pairs, ColsNonneg p.1 →
+    ∀ (sh : SM.Shows) (t0 : Rat) (cs : List BcSnap) (h : SM.WHeader) (ty desc diff : SM.Str) (dv : Int)
+      (groove : List Rat) (w : SM.Written), SMWritable sh t0 cs h (smOfT p.2.2 ty desc diff dv groove) w →
+      ∃ d, SM.denote (SM.renderWritten sh w) = some d ∧ d.offsetSec = some w.offsetSec ∧ d.bpms = some w.bpms ∧
+        -(1000 * w.offsetSec) = h.offset ∧ d.chartsWellFormed = true ∧ d.charts.length = 1 ∧
+        ∀ (hd : 0 < d.charts.length),
+          CloseTo 0 (.beat (1 / 96) (1 / 192)) true 0 p.1 (ofSMChart w.offsetSec w.bpms d.charts[0]) := by
+  intro c hc hns as svs sa ma lv k out hconv p hp hcols sh t0 cs h ty desc diff dv groove w H
+  have hsrc : ∀ m ∈ (srcOfAbstract as svs sa ma lv).maps, Convert.srcMapOk m = true := by
+    intro m hm
+    simp only [srcOfAbstract, List.mem_map] at hm
+    obtain ⟨a, _, rfl⟩ := hm
+    exact srcMapOk_embA _ _ _ _
+  have hmem : (embA p.1 svs ma lv, p.2) ∈ (srcOfAbstract as svs sa ma lv).maps.zip out.pairs := by
+    simp only [srcOfAbstract, List.zip_map_left]
+    exact List.mem_map.mpr ⟨p, hp, rfl⟩
+  have := convert_write_sm_partial c hc hns _ k out hsrc hconv _ hmem (by simpa [ofSrcMap_embA] using hcols)
+    sh t0 cs h ty desc diff dv groove w H
+  simpa [ofSrcMap_embA] using this
+
 end Reamber.Pipeline
